@@ -307,3 +307,46 @@ Proof.
     + destruct (existsb (Nat.eqb t) free) eqn:E; [discriminate|]. destruct held as [|h]; [discriminate|].
       destruct (IH _ _ _ _ _ _ n H ltac:(cbn [length]; lia) Hm) as [A [B C]]. repeat split; assumption.
 Qed.
+
+(* ------------------------------------------------------------------ 2b. accepted pipeline traces *)
+Lemma remove_first_occ c x : forall l l', remove_first c l = Some l' -> occ x l = occ x l' + (if Nat.eq_dec c x then 1 else 0).
+Proof.
+  induction l as [|y r IH]; intros l' H; cbn [remove_first] in H; [discriminate|].
+  destruct (Nat.eqb_spec y c) as [Eyc|Hne].
+  - injection H as <-. subst y. unfold occ. cbn [count_occ]. destruct (Nat.eq_dec c x); lia.
+  - destruct (remove_first c r) as [r'|] eqn:E; [|discriminate]. injection H as <-.
+    pose proof (IH r' eq_refl) as IH'. unfold occ in *. cbn [count_occ].
+    destruct (Nat.eq_dec y x); destruct (Nat.eq_dec c x); lia.
+Qed.
+
+Lemma puts_put c evs : puts_of (EvPut c :: evs) = c :: puts_of evs.  Proof. reflexivity. Qed.
+Lemma puts_get c evs : puts_of (EvGet c :: evs) = puts_of evs.  Proof. reflexivity. Qed.
+Lemma puts_fin c evs : puts_of (EvFin c :: evs) = puts_of evs.  Proof. reflexivity. Qed.
+Lemma occ_cons x c l : occ x (c :: l) = (if Nat.eq_dec c x then 1 else 0) + occ x l.
+Proof. unfold occ. cbn [count_occ]. destruct (Nat.eq_dec c x); reflexivity. Qed.
+Lemma occ_nil x : occ x [] = 0.  Proof. reflexivity. Qed.
+
+(* every accepted trace conserves chunks: what was put = what is queued + in a worker's hands + processed, chunk by chunk;
+   in particular with an empty queue and idle workers at the end every chunk put was processed exactly once *)
+Theorem pipe_trace_sound cap : forall evs q hand done q' hand' done',
+  pipe_trace cap q hand done evs = Some (q', hand', done') ->
+  forall x, occ x (q ++ hand ++ done) + occ x (puts_of evs) = occ x (q' ++ hand' ++ done').
+Proof.
+  induction evs as [|e evs IH]; intros q hand done q' hand' done' H x; cbn [pipe_trace] in H.
+  - injection H as <- <- <-. cbn [puts_of flat_map]. rewrite occ_nil. lia.
+  - destruct e as [c|c|c].
+    + destruct (length q <? cap); [|discriminate]. rewrite <- (IH _ _ _ _ _ _ H x).
+      rewrite puts_put, occ_cons, !occ_app, occ_cons, occ_nil. lia.
+    + destruct q as [|y q0]; [discriminate|]. destruct (Nat.eqb_spec y c) as [Eyc|]; [|discriminate]. subst y.
+      rewrite <- (IH _ _ _ _ _ _ H x). rewrite puts_get. cbn [app]. rewrite !occ_app, !occ_cons, !occ_app. lia.
+    + destruct (remove_first c hand) as [h2|] eqn:E; [|discriminate].
+      rewrite <- (IH _ _ _ _ _ _ H x). rewrite puts_fin, !occ_app. cbn [app]. rewrite occ_cons.
+      pose proof (remove_first_occ c x hand h2 E) as Ho. lia.
+Qed.
+
+Corollary pipe_trace_exactly_once cap evs done' :
+  pipe_trace cap [] [] [] evs = Some ([], [], done') -> Permutation done' (puts_of evs).
+Proof.
+  intros H. apply (Permutation_count_occ Nat.eq_dec). intros x.
+  pose proof (pipe_trace_sound cap evs [] [] [] [] [] done' H x) as E. cbn [app] in E. rewrite occ_nil in E. unfold occ in E. lia.
+Qed.
